@@ -286,8 +286,10 @@ class TextFormatting(Contract):
             g = out.state.ghost
             ps = rope_of(r).pieces
             ok = len(ps) == 1 and isinstance(ps[0], Tok) and ps[0].tag == "JOIN" and ps[0].fields["sep"] == ""
-            return {"is_concatenation_of_parts": z3.BoolVal(ok), "opens_exactly_one_group": g["gbal"] == 1, "low_nonneg": g["glow"] >= 0,
-                    "ascii": g["gascii"]}
+            # (a path that a timed-out feasibility check let through never ran the loop's `before` hook: its hypotheses are
+            # contradictory and the clauses below are then discharged from them; the ghost defaults only keep this code total)
+            gb, gl, ga = g.get("gbal", IntVal(-99)), g.get("glow", IntVal(-99)), g.get("gascii", z3.BoolVal(False))
+            return {"is_concatenation_of_parts": z3.BoolVal(ok), "opens_exactly_one_group": gb == 1, "low_nonneg": gl >= 0, "ascii": ga}
         b, l = rope_bal_low(r)
         fs, fnum = param_int(r, "fs"), param_int(r, "f")
         cl = {"opens_exactly_one_group": And(b == 1, l >= 0), "ascii": rope_ascii(r),
